@@ -18,6 +18,7 @@ from ast import literal_eval
 from datetime import datetime
 
 from rich.logging import RichHandler
+from rich.markup import escape
 from rich.text import Text
 
 from nemoguardrails.logging.simplify_formatter import SimplifyFormatter
@@ -40,6 +41,14 @@ class VerboseHandler(logging.StreamHandler):
         super(VerboseHandler, self).__init__(*args, **kwargs)
 
     def emit(self, record) -> None:
+        # A log handler must never break the code that logs: the messages carry
+        # arbitrary text (user input, LLM output), which is data, not markup.
+        try:
+            self._emit(record)
+        except Exception:
+            self.handleError(record)
+
+    def _emit(self, record) -> None:
         msg = self.format(record)
 
         # We check if we're using the spacial syntax with " :: " which denotes a title.
@@ -81,12 +90,12 @@ class VerboseHandler(logging.StreamHandler):
                     console.print("")
 
             elif title.startswith("Colang Log ("):
-                title = f"[green]{title[11:]}[/]"
+                title = f"[green]{escape(title[11:])}[/]"
 
             elif title == "Event":
                 # For events, we also color differently the type of event.
                 event_name, body = body.split(" ", 1)
-                title = f"[blue]{title}[/] [bold]{event_name}[/]"
+                title = f"[blue]{title}[/] [bold]{escape(event_name)}[/]"
 
             else:
                 if title == "Processing event" and body.startswith("{"):
@@ -103,6 +112,7 @@ class VerboseHandler(logging.StreamHandler):
                             del event_dict["type"]
                             del event_dict["uid"]
                             body = json.dumps(event_dict)
+                            event_type = escape(event_type)
 
                             # We're adding a new line before action events, to
                             # make it more readable.
@@ -143,19 +153,20 @@ class VerboseHandler(logging.StreamHandler):
                     #     skip_print = True
                 else:
                     if title == "---":
-                        title = f"[#555555]{body}[/]"
+                        title = f"[#555555]{escape(body)}[/]"
                         body = ""
                     else:
-                        title = f"[#707070]{title}[/] [#555555]{body}[/]"
+                        title = f"[#707070]{escape(title)}[/] [#555555]{escape(body)}[/]"
                         body = ""
 
             if not skip_print:
                 current_time = datetime.now().strftime("%H:%M:%S.%f")[:-3]
                 msg = f"[dim]{current_time}[/] | "
 
+                # The title carries the markup built above; the body is plain text.
                 if body:
                     msg += f"[dim]{title}[/] | "
-                    msg += f"[dim]{body}[/]"
+                    msg += f"[dim]{escape(body)}[/]"
                 else:
                     msg += f"[dim]{title}[/]"
 
